@@ -1127,3 +1127,221 @@ func includesCount(v, cnt ssa.Value, from *ssa.BasicBlock) bool {
 	}
 	return rec(v)
 }
+
+// E4b — end of input is never turned into success: on the true edge of a comparison of an error with io.EOF the error
+// may be replaced by the end-of-stream sentinel or propagated, but not by nil. (io.ErrUnexpectedEOF is different: a
+// partial read did deliver bytes; dropping it is the documented way to accept a short last read.) Swallowing io.EOF
+// makes an exhausted reader look like a successful read of nothing: the caller then fails on stale/zero bytes for
+// ever and never reports the end of the stream.
+func E4b(p *load.Program, r *report.Report) {
+	n := 0
+	for _, f := range p.SrcFuncs() {
+		k := 0
+		for _, b := range f.Blocks {
+			if len(b.Instrs) == 0 {
+				continue
+			}
+			iff, ok := b.Instrs[len(b.Instrs)-1].(*ssa.If)
+			if !ok {
+				continue
+			}
+			cmp, ok := iff.Cond.(*ssa.BinOp)
+			if !ok || (cmp.Op != token.EQL && cmp.Op != token.NEQ) {
+				continue
+			}
+			isEOF := func(v ssa.Value) bool {
+				u, ok := v.(*ssa.UnOp)
+				if !ok {
+					return false
+				}
+				g := ssau.GlobalOf(u)
+				return g != nil && g.Name() == "EOF" && g.Pkg != nil && g.Pkg.Pkg.Path() == "io"
+			}
+			var errVal ssa.Value
+			switch {
+			case isEOF(cmp.Y):
+				errVal = cmp.X
+			case isEOF(cmp.X):
+				errVal = cmp.Y
+			default:
+				continue
+			}
+			_ = errVal
+			k++
+			n++
+			edge := 0
+			if cmp.Op == token.NEQ {
+				edge = 1
+			}
+			t := b.Succs[edge]
+			key := fmt.Sprintf("%s/io.EOF-test#%d", load.FuncName(f), k)
+			bad := ""
+			// the block reached when the error IS io.EOF, up to its unconditional continuation
+			cur, from := t, b
+			for steps := 0; steps < 4 && bad == ""; steps++ {
+				idx := -1
+				for i, pr := range cur.Preds {
+					if pr == from {
+						idx = i
+					}
+				}
+				for _, in := range cur.Instrs {
+					switch x := in.(type) {
+					case *ssa.Phi:
+						if idx >= 0 && ssau.IsErrorType(x.Type()) {
+							if c, isC := x.Edges[idx].(*ssa.Const); isC && c.Value == nil && len(cur.Preds) > 1 && from != b {
+								bad = "the error is replaced by nil"
+							}
+							if c, isC := x.Edges[idx].(*ssa.Const); isC && c.Value == nil && from == b {
+								bad = "the error is replaced by nil"
+							}
+						}
+					case *ssa.Store:
+						if c, isC := x.Val.(*ssa.Const); isC && c.Value == nil && ssau.IsErrorType(x.Val.Type()) {
+							bad = "nil is stored into the error variable"
+						}
+					}
+				}
+				if len(cur.Succs) != 1 {
+					break
+				}
+				from, cur = cur, cur.Succs[0]
+			}
+			if bad == "" {
+				r.OK("E4b", key, p.Pos(cmp.Pos()), "on the io.EOF edge the error is mapped to a non-nil error or propagated, never to nil")
+			} else {
+				r.Bad("E4b", key, p.Pos(cmp.Pos()), "io.EOF is turned into success: "+bad+" on the edge where the reader reported io.EOF (an exhausted reader then looks like a successful read of nothing and the end of the stream is never reported)")
+			}
+		}
+	}
+	r.Floor("E4b", "comparisons of an error with io.EOF", n, 2)
+}
+
+// E2c — an I/O error is cleared only by looking at it: where an error that may come from the reader/writer is merged
+// with a nil constant (phi) on a path on which the producing call has executed, the branch that selects nil must test
+// that very error (against nil, a sentinel, or through errors.Is). Clearing it under any other condition ("some bytes
+// were read", "the buffer is not empty") swallows real failures.
+func E2c(p *load.Program, r *report.Report, sets IOSets) {
+	n := 0
+	for _, f := range p.SrcFuncs() {
+		k := 0
+		for _, b := range f.Blocks {
+			for _, in := range b.Instrs {
+				phi, ok := in.(*ssa.Phi)
+				if !ok {
+					break
+				}
+				if !ssau.IsErrorType(phi.Type()) {
+					continue
+				}
+				for i, e := range phi.Edges {
+					c, isC := e.(*ssa.Const)
+					if !isC || c.Value != nil {
+						continue
+					}
+					pred := b.Preds[i]
+					// the error values merged with this nil
+					for j, o := range phi.Edges {
+						if j == i {
+							continue
+						}
+						call := ioErrCall(o, sets)
+						if call == nil || !call.Block().Dominates(pred) {
+							continue
+						}
+						k++
+						n++
+						key := fmt.Sprintf("%s/cleared-error#%d", load.FuncName(f), k)
+						cond := controllingCond(pred, call.Block())
+						if cond == nil {
+							r.Unknown("E2c", key, p.Pos(phi.Pos()), "the condition under which the I/O error is replaced by nil could not be located")
+							continue
+						}
+						if condTestsError(cond, o) {
+							r.OK("E2c", key, p.Pos(phi.Pos()), "the I/O error is replaced by nil only under a test of that error")
+						} else {
+							r.Bad("E2c", key, p.Pos(phi.Pos()), "an error that may come from the reader/writer is replaced by nil under a condition that does not look at it ("+cond.String()+"): a real failure is swallowed")
+						}
+					}
+				}
+			}
+		}
+	}
+	r.Count("cleared_io_errors", n)
+}
+
+// ioErrCall: v is (an extract of) the error result of a call that may fail because of the reader/writer.
+func ioErrCall(v ssa.Value, sets IOSets) *ssa.Call {
+	var call *ssa.Call
+	switch x := v.(type) {
+	case *ssa.Extract:
+		call, _ = x.Tuple.(*ssa.Call)
+	case *ssa.Call:
+		call = x
+	}
+	if call == nil {
+		return nil
+	}
+	if t, _ := sets.ioTainted(&call.Call); !t {
+		return nil
+	}
+	return call
+}
+
+// controllingCond: the condition of the nearest branch (walking up the dominator tree from b, not beyond stop) one of
+// whose successors leads to b exclusively.
+func controllingCond(b, stop *ssa.BasicBlock) ssa.Value {
+	for cur := b; cur != nil; cur = cur.Idom() {
+		d := cur.Idom()
+		if d == nil {
+			return nil
+		}
+		if iff, ok := d.Instrs[len(d.Instrs)-1].(*ssa.If); ok {
+			// cur is reached through exactly one successor of d
+			viaT := d.Succs[0] == cur || d.Succs[0].Dominates(cur)
+			viaF := d.Succs[1] == cur || d.Succs[1].Dominates(cur)
+			if viaT != viaF {
+				return iff.Cond
+			}
+		}
+		if d == stop {
+			return nil
+		}
+	}
+	return nil
+}
+
+// condTestsError: the condition compares err (or a value it flows to/from) or passes it to errors.Is/As.
+func condTestsError(cond ssa.Value, err ssa.Value) bool {
+	same := func(v ssa.Value) bool {
+		if v == err {
+			return true
+		}
+		for _, l := range ssau.Leaves(v) {
+			if l == err {
+				return true
+			}
+		}
+		return false
+	}
+	switch c := cond.(type) {
+	case *ssa.BinOp:
+		if c.Op == token.EQL || c.Op == token.NEQ {
+			return same(c.X) || same(c.Y)
+		}
+	case *ssa.Call:
+		n := ssau.CalleeName(&c.Call)
+		if n == "errors.Is" || n == "errors.As" {
+			for _, a := range c.Call.Args {
+				if same(a) {
+					return true
+				}
+			}
+		}
+	case *ssa.UnOp:
+		if c.Op == token.NOT {
+			return condTestsError(c.X, err)
+		}
+	}
+	return false
+}
